@@ -13,7 +13,7 @@
     and reader of request documents ([rfc_write_raw], [rfc_read]).
 
     No proofs here: this file is extracted and must build even when a proof breaks. *)
-From Coq Require Import DecimalString DecimalN Decimal.
+From Coq Require Import DecimalString DecimalN Decimal Permutation.
 From GW Require Import Base CardXml.
 
 (* ------------------------------------------------------------------------- *)
@@ -991,9 +991,10 @@ Definition read_data (e : elem3) : option r_data :=
   | _ => olet names <- omapM read_cprop es; Some (RProps names)
   end.
 
+(** a requested property: address-data, or any other element (only its name matters) *)
 Definition read_item (e : elem3) : option r_item :=
   if qname_eqb (fst (fst e)) (C "address-data") then olet d <- read_data e; Some (RAddressData d)
-  else if is_empty_elem (fst (fst e)) e then Some (ROther (fst (fst e))) else None.
+  else Some (ROther (fst (fst e))).
 
 (** DAV:allprop | DAV:propname | DAV:prop *)
 Definition read_sel (e : elem3) : option r_sel :=
@@ -1429,3 +1430,36 @@ Definition z_of_dec (neg : bool) (s : string) : option Z :=
   | Some n => Some (if neg then Z.opp (Z.of_N n) else Z.of_N n)
   | None => None
   end.
+
+(* ========================================================================= *)
+(** * Lexical variants of a document (statement of C09_server_denotes / C09_rfc_codec).
+
+    What XML lets a sender vary without changing the request: the order of the
+    attributes of a start tag, namespace declarations (any number, anywhere: they are
+    not attributes), comments, white-space-only text between the children of an
+    element with element content, and comments inside text content (which split the
+    text).  Prefixes, character references and CDATA sections are not visible in a
+    tree at all.  [kind_of] says which content each RFC 6352 element has. *)
+
+Inductive content_kind := KElems | KText | KEmpty.
+
+Definition kind_of (n : qname) : content_kind :=
+  if qname_eqb n (C "text-match") || qname_eqb n (C "nresults") || qname_eqb n (D "href") then KText
+  else if qname_eqb n (C "addressbook-query") || qname_eqb n (C "addressbook-multiget")
+          || qname_eqb n (C "filter") || qname_eqb n (C "prop-filter") || qname_eqb n (C "param-filter")
+          || qname_eqb n (C "limit") || qname_eqb n (C "address-data") || qname_eqb n (D "prop") then KElems
+  else KEmpty.
+
+Inductive var : xtree -> xtree -> Prop :=
+| V_elem n a a' k k' :
+    Permutation (real_attrs a) (real_attrs a') -> var_kids (kind_of n) k k' ->
+    var (Elem n a k) (Elem n a' k')
+| V_text s : var (Text s) (Text s)
+| V_comment s : var (Comment s) (Comment s)
+with var_kids : content_kind -> list xtree -> list xtree -> Prop :=
+| VK_nil c : var_kids c [] []
+| VK_cons c x x' r r' : var x x' -> var_kids c r r' -> var_kids c (x :: r) (x' :: r')
+| VK_comment c s r r' : c <> KEmpty -> var_kids c r r' -> var_kids c r (Comment s :: r')
+| VK_ws s r r' : is_ws s = true -> var_kids KElems r r' -> var_kids KElems r (Text s :: r')
+| VK_split s1 s2 cm r r' :
+    var_kids KText r r' -> var_kids KText (Text (s1 ++ s2) :: r) (Text s1 :: Comment cm :: Text s2 :: r').
